@@ -375,6 +375,11 @@ inline bool do_decode_resize(std::vector<T>& v, const uint8_t*& pos, const uint8
     {
         return false;
     }
+    if (max == ~size_t() && n > size_t(end - pos))
+    {
+        /// every element of a dynamic array takes at least one byte of the remaining input
+        return false;
+    }
     v.resize(n);
     return true;
 }
